@@ -238,6 +238,15 @@ theorem labels_aligned (ops : List MOp) (hw : ∀ op ∈ ops, OpWF op) (dfmt : S
     ∀ i (hi : i < names.length), varName (run MState.init ops).groups dfmt (i + 1) = .ok names[i] :=
   allLabels_aligned (run_sinv sinv_init hw) h
 
+/-- … and it does report them: on every reachable state, `all_variable_labels` succeeds as soon as
+every variable has a name (its label / the default name can be formatted); in particular the
+`assert varid == end+1` at its end never fires -/
+theorem labels_defined (ops : List MOp) (hw : ∀ op ∈ ops, OpWF op) (dfmt : String)
+    (hn : ∀ v, 1 ≤ v → v ≤ (run MState.init ops).numvar →
+      ∃ n, varName (run MState.init ops).groups dfmt v = .ok n) :
+    ∃ names, allLabels (run MState.init ops) dfmt = .ok names :=
+  allLabels_defined (run_sinv sinv_init hw) hn
+
 /-- non-vacuity, and the two histories on which the code used to be wrong (D23, fixed): a single
 variable after anonymous variables, an unnamed variable -/
 example : allLabels (run MState.init [.updateVarNum 3, .newGroup (.variable (some "X"))]) =
